@@ -102,11 +102,16 @@ def _entry_points(repo: Repo) -> tuple[list[FuncInfo], bool, str]:
     classes = _matcher_classes(repo)
     ev = view.param_names[1] if len(view.param_names) > 1 else ""
 
-    def creates_matcher(v: ast.AST | None) -> bool:
+    def creates_matcher(v: ast.AST | None, deep: bool = True) -> bool:
         if not isinstance(v, ast.Call):
             return False
         cs, how = fn.callees(v)
-        return bool(cs) and all(f.cls in classes and f.name in ("__init__", "__post_init__") for f in cs)
+        if bool(cs) and all(f.cls in classes and f.name in ("__init__", "__post_init__") for f in cs):
+            return True
+        if deep and parent(v) is not None:  # a private factory whose body only builds the matcher
+            x = fn.expand(v)
+            return x is not v and creates_matcher(x, False)
+        return False
 
     def is_matcher(e: ast.AST) -> bool:
         if any(m[0] == "cls" and repo.classes.get(m[1]) in classes for m in _members(fn.type_of(e))):
@@ -114,7 +119,7 @@ def _entry_points(repo: Repo) -> tuple[list[FuncInfo], bool, str]:
         if isinstance(e, ast.Name):
             defs = fn.reaching(e.id, e)
             return bool(defs) and any(d.kind == "assign" and (creates_matcher(d.value) or (d.value is not None and is_matcher(d.value))) for d in defs)
-        return False
+        return creates_matcher(e)
 
     entries: list[FuncInfo] = []
     fresh, why = True, ""
@@ -135,7 +140,8 @@ def _entry_points(repo: Repo) -> tuple[list[FuncInfo], bool, str]:
             if f not in entries:
                 entries.append(f)
         if not isinstance(recv, ast.Name):
-            fresh, why = False, f"the matcher is kept in `{norm(recv)}` of the rule object and used again"
+            if not creates_matcher(recv):
+                fresh, why = False, f"the matcher is kept in `{norm(recv)}` of the rule object and used again"
             continue
         for d in fn.reaching(recv.id, recv):
             if not (d.kind == "assign" and creates_matcher(d.value)):
@@ -220,6 +226,25 @@ def _stores_of_field(repo: Repo, field_name: str) -> list[tuple[FuncInfo, ast.AS
                 if isinstance(n, ast.Attribute) and isinstance(n.ctx, ast.Store) and n.attr == field_name and isinstance(n.value, ast.Name) and n.value.id == "self":
                     out.append((m, n))
     return out
+
+
+def _always_run(fn: Fn, call: ast.AST) -> ast.AST:
+    """The statement whose execution implies that `call` is executed: its own statement, or the outermost enclosing `for` over a
+    non-empty literal tuple / list (such a loop body runs at least once)."""
+    node = stmt_of(call)
+    cur = node
+    for a in ancestors(node):
+        if isinstance(a, (ast.For, ast.AsyncFor)):
+            it = fn.expand(a.iter)
+            if isinstance(it, (ast.Tuple, ast.List)) and it.elts and cur in a.body and not a.orelse:
+                node = a
+                cur = a
+                continue
+            break
+        if isinstance(a, (ast.While, ast.If, ast.Try, ast.With, ast.FunctionDef, ast.AsyncFunctionDef)):
+            break
+        cur = a
+    return node
 
 
 def _ctor_none_fields(repo: Repo) -> set[str]:
@@ -315,7 +340,7 @@ def run_r1(repo: Repo, res: Result) -> None:
                 state = any(isinstance(x, ast.Name) and x.id == "self" for l, _ in lits for x in ast.walk(l))
                 problems.append((f"the conversion `{norm(c, 60)}` only runs if `{' and '.join(('' if p else 'not ') + norm(l, 50) for l, p in lits)}`", c, state))
             for q in queries:
-                if not cfg.dominates(stmt_of(c), stmt_of(q)):
+                if not cfg.dominates(_always_run(fn, c), stmt_of(q)):
                     problems.append((f"the query `{norm(q, 50)}` can be reached without the conversion `{norm(c, 50)}`", q, True))
                     break
         for c in convs:
@@ -491,7 +516,32 @@ class Matched:
     pattern: str = ""
 
 
-def matched_pair(fn: Fn, c, modules_param: str, arch_param: str, membership_of: str | None = None) -> Matched:
+def _first_time_flag(fn: Fn, lit: ast.AST) -> bool:
+    """`if x is None: x = <new>; ...` inside an inner loop with `x = None` set at the start of every pass of the enclosing loop:
+    the block runs for the first inner element that gets there - once per outer element if any inner element qualifies."""
+    if not (isinstance(lit, ast.Compare) and len(lit.ops) == 1 and isinstance(lit.ops[0], ast.Is) and isinstance(lit.comparators[0], ast.Constant) and lit.comparators[0].value is None and isinstance(lit.left, ast.Name)):
+        return False
+    ctx, orig = fn.ctx_of(lit.left)
+    if ctx is not fn.fi or parent(orig) is None:
+        return False
+    test_if = next((a for a in ancestors(orig) if isinstance(a, ast.If) and any(n is orig for n in ast.walk(a.test))), None)
+    if test_if is None:
+        return False
+    defs = fn.reaching(orig.id, orig)
+    inits = [d for d in defs if d.kind == "assign" and isinstance(d.value, ast.Constant) and d.value.value is None]
+    sets = [d for d in defs if d not in inits]
+    if len(inits) != 1 or not sets or any(d.kind != "assign" for d in sets):
+        return False
+    inside = {id(n) for st in test_if.body for n in ast.walk(st)}
+    if any(id(d.stmt) not in inside for d in sets):
+        return False
+    loops_if = [a for a in ancestors(test_if) if isinstance(a, (ast.For, ast.AsyncFor))]
+    loops_init = [a for a in ancestors(inits[0].stmt) if isinstance(a, (ast.For, ast.AsyncFor))]
+    # the reset happens in a loop that encloses the loop of the test (reset once per outer element)
+    return bool(loops_if) and bool(loops_init) and loops_init[0] in loops_if[1:] and loops_if[0] is not loops_init[0]
+
+
+def matched_pair(fn: Fn, c, modules_param: str, arch_param: str, membership_of: str | None = None, once_per_module: bool = False) -> Matched:
     """Is the contribution made exactly once for every pair (regex filter f of `modules`, module m of `arch.modules`) with
     re.match(f.identifier, m)?  `membership_of`: a literal `f.identifier in <that name>` is tolerated (remove idiom)."""
     subj = [b for b in c.binders if b.root and isinstance(b.source, ast.Attribute) and b.source.attr == "modules" and dotted(b.source.value) == arch_param and len(b.names) == 1]
@@ -523,6 +573,8 @@ def matched_pair(fn: Fn, c, modules_param: str, arch_param: str, membership_of: 
             continue
         if not pol and c.acc and isinstance(lit, ast.Compare) and isinstance(lit.ops[0], ast.In) and dotted(lit.comparators[0]) == c.acc and c.elt is not None and norm(lit.left) == norm(c.elt):
             continue  # `if e not in acc: acc.append(e)` - duplicates are not added twice
+        if once_per_module and pol and _first_time_flag(fn, lit):
+            continue  # added for the first matching pattern of a module only: the same *set* of modules
         if membership_of is not None and pol and isinstance(lit, ast.Compare) and isinstance(lit.ops[0], ast.In) and _is_identifier_of(lit.left, pv) and dotted(lit.comparators[0]) == membership_of:
             continue
         return Matched(False, f"it additionally depends on `{'' if pol else 'not '}{show(lit)}`")
@@ -535,7 +587,9 @@ def matched_pair(fn: Fn, c, modules_param: str, arch_param: str, membership_of: 
 
 def _full(co: Collections, node: ast.AST):
     """Normalised description with `if <collection>:` conditions turned into binders."""
-    return co.normalise(co.exists_intro(co.describe(node)))
+    d = co.normalise(co.exists_intro(co.describe(node)))
+    # conditions that only appear once sources are composed (an element was registered `if <its own match list>:`)
+    return co.normalise(co.exists_intro(d))
 
 
 def _tuple_parts(fn: Fn, e: ast.AST) -> list[ast.AST] | None:
@@ -594,7 +648,7 @@ def run_r2(repo: Repo, res: Result) -> None:
     scan_loops: list[ast.AST] = []
     sites: dict[int, ast.AST] = {}  # loop inside a generator helper -> statement of the view that runs it
     for c in k1:
-        m = matched_pair(fn, c, modules_p, arch_p)
+        m = matched_pair(fn, c, modules_p, arch_p, once_per_module=True)
         key = repo.key(view, stmt_of(c.node)) + " [pattern x module]" if c.node is not None and parent(c.node) is not None else base + "name filter of a match"
         ok = m.ok
         why = m.why
@@ -724,13 +778,64 @@ def _no_match_raises(repo: Repo, view: FuncInfo, fn: Fn, co: Collections, raises
             if not pol and isinstance(lit, ast.Compare) and isinstance(lit.ops[0], ast.In) and _is_identifier_of(lit.left, v):
                 got = _matched_keys(fn, co, lit.comparators[0], modules_p, arch_p)
                 return (True, "") if got is True else got
+        # form D: patterns whose match counter stayed at zero
+        got = _unmatched_by_counter(fn, co, u, modules_p, arch_p)
+        if got is not None:
+            return got
         # form C: per pattern, "no module matched" is a flag set in an inner scan or `not any(<test> for <module>)`
         got = _unmatched_by_flag(fn, co, u, modules_p, arch_p)
         if got is not None:
             return got
         extra = [f"{'' if p else 'not '}{show(l)}" for rest in rests for l, p in rest]
         return False, f"the unmatched set `{u.id}` does not start from all regex filters (only those with `{' and '.join(extra[:2])}`)"
+    got = _unmatched_by_counter(fn, co, u, modules_p, arch_p)
+    if got is not None:
+        return got
     return None, f"the unmatched set `{u.id}` is `{du.contribs[0].text()[:100]}` - not recognised"
+
+
+def _unmatched_by_counter(fn: Fn, co: Collections, u: ast.Name, modules_p: str, arch_p: str):
+    """`counts = dict.fromkeys(patterns, 0)` ... `counts[p] += 1` for every match ... `U = [p for p, n in counts.items() if n == 0]`.
+    Returns None if the shape is a different one."""
+    raw = co.describe(u)
+    if raw.unknown or raw.removals or len(raw.contribs) != 1:
+        return None
+    c = raw.contribs[0]
+    if len(c.binders) != 1 or not isinstance(c.binders[0].target, (ast.Tuple, ast.List)) or len(c.binders[0].target.elts) != 2:
+        return None
+    src = c.binders[0].source
+    if not (isinstance(src, ast.Call) and isinstance(src.func, ast.Attribute) and src.func.attr == "items" and isinstance(src.func.value, ast.Name) and not src.args):
+        return None
+    k, v = c.binders[0].target.elts
+    if not (isinstance(k, ast.Name) and isinstance(v, ast.Name) and isinstance(c.elt, ast.Name) and c.elt.id == k.id):
+        return None
+    lits = flatten(c.conds)
+    zero = len(lits) == 1 and ((isinstance(lits[0][0], ast.Name) and lits[0][0].id == v.id and not lits[0][1]) or (lits[0][1] and isinstance(lits[0][0], ast.Compare) and isinstance(lits[0][0].ops[0], ast.Eq) and isinstance(lits[0][0].left, ast.Name) and lits[0][0].left.id == v.id and isinstance(lits[0][0].comparators[0], ast.Constant) and lits[0][0].comparators[0].value == 0))
+    if not zero:
+        return False, f"`{u.id}` is `{c.text()[:90]}`: not the patterns whose match counter is zero"
+    t = co.tree(src.func.value)
+    if t is None:
+        return None
+    dm = _full(co, t)
+    if dm.unknown or dm.removals:
+        return None, f"the counter `{src.func.value.id}` is not recognised"
+    seeds = [x for x in dm.contribs if x.how != "subscript-aug"]
+    incs = [x for x in dm.contribs if x.how == "subscript-aug"]
+    if not seeds or not incs:
+        return None
+    for x in seeds:
+        ok, more = _pattern_image(x, modules_p)
+        if not ok or more or not (isinstance(x.value, ast.Constant) and x.value.value == 0):
+            return False, f"the counter `{src.func.value.id}` does not start at zero for every regex filter (`{x.text()[:80]}`)"
+    for x in incs:
+        if not (isinstance(x.value, ast.Constant) and isinstance(x.value.value, int) and x.value.value > 0 and isinstance(x.node, ast.AugAssign) and isinstance(x.node.op, ast.Add)):
+            return None, f"`{show(x.node, 60)}` on the match counter is not recognised"
+        m = matched_pair(fn, x, modules_p, arch_p)
+        if not m.ok:
+            return False, f"the match counter is increased by `{show(x.node, 60)}`, but {m.why}"
+        if not _is_identifier_of(x.elt, m.pattern):
+            return False, f"`{show(x.node, 60)}` counts for `{show(x.elt)}`, not for the pattern that matched"
+    return True, ""
 
 
 def _unmatched_by_flag(fn: Fn, co: Collections, u: ast.Name, modules_p: str, arch_p: str):
